@@ -309,7 +309,7 @@ def run_history_c47(ch, tr: Trace) -> None:
 
 WORKLOADS = [
     Workload(
-        name="history", run=run_history_c47, runs={"quick": 20_000, "thorough": 1_500_000}, chunk=250, run_timeout=60.0,
+        name="history", run=run_history_c47, runs={"quick": 30_000, "thorough": 1_500_000}, chunk=250, run_timeout=60.0,
         real=["FractureNetwork2d.to_csv / network_2d_from_csv", "FractureNetwork3d.to_csv / network_3d_from_csv", "porepy.utils.txt_io.export_data_to_txt / read_data_from_txt", "real files on tmpfs"],
         stub=["open() interposer (simkit/fsseam.py) only to inject OSError at drawn crossings; otherwise passes through"],
     ),
